@@ -1403,10 +1403,11 @@ impl Stdfs {
     /// ```
     pub fn remove<T: AsRef<Path>>(path: T) -> RvResult<()> {
         let path = Stdfs::abs(path)?;
-        if let Ok(meta) = fs::metadata(&path) {
-            if meta.is_file() {
+        // Link exclusion i.e. look at the link itself not what it points to
+        if let Ok(meta) = fs::symlink_metadata(&path) {
+            if !meta.is_dir() {
                 fs::remove_file(&path)?;
-            } else if meta.is_dir() {
+            } else {
                 let result = fs::remove_dir(&path);
 
                 // Normalize IO errors
